@@ -853,6 +853,45 @@ func (w flushWriter) Flush() {
 	}
 }
 
+// lazyHeaderWriter hands out a private header map until the response is started (any WriteHeader, Write or Flush), copies
+// it into the real map at that moment and hands out the real map from then on — the shape of the repository's timeout
+// writer. Whoever asks Header() every time sees no difference from the bare writer; whoever keeps the map it got first
+// talks to a map nobody reads once the response (or an informational response) has started.
+type lazyHeaderWriter struct {
+	http.ResponseWriter
+	private http.Header
+	started bool
+}
+
+func (w *lazyHeaderWriter) start() {
+	if w.started {
+		return
+	}
+	w.started = true
+	real := w.ResponseWriter.Header()
+	clear(real)
+	for k, v := range w.private {
+		real[k] = v
+	}
+}
+func (w *lazyHeaderWriter) Header() http.Header {
+	if w.started {
+		return w.ResponseWriter.Header()
+	}
+	return w.private
+}
+func (w *lazyHeaderWriter) WriteHeader(code int) { w.start(); w.ResponseWriter.WriteHeader(code) }
+func (w *lazyHeaderWriter) Write(b []byte) (int, error) {
+	w.start()
+	return w.ResponseWriter.Write(b)
+}
+func (w *lazyHeaderWriter) Flush() {
+	w.start()
+	if f, ok := w.ResponseWriter.(http.Flusher); ok {
+		f.Flush()
+	}
+}
+
 // recorderWriter is a first-call-wins status recorder (the shape of access-log / metrics / tracing writers):
 // only the first WriteHeader — whatever its code — reaches the writer underneath.
 type recorderWriter struct {
@@ -906,6 +945,8 @@ func wrapMW(kind string) router.HandlerFunc {
 			c.Response = bareWriter{orig}
 		} else if strings.HasSuffix(kind, "recorder") {
 			c.Response = &recorderWriter{ResponseWriter: orig}
+		} else if strings.HasSuffix(kind, "lazyheader") {
+			c.Response = &lazyHeaderWriter{ResponseWriter: orig, private: orig.Header().Clone()}
 		} else if i := strings.Index(kind, "refuse-"); i >= 0 {
 			n, _ := strconv.Atoi(kind[i+7:])
 			c.Response = &refuseWriter{ResponseWriter: orig, n: n}
